@@ -43,6 +43,7 @@ class Variant:
     reverse: bool = False
     count: int = 1              # number of occurrences to replace (0 = all)
     also: list = field(default_factory=list)   # further (file, old, new) edits
+    transform: object = None    # callable(source) -> new source | None (anchor lost)
 
 
 def T(vid, prop, file, old, new, **kw):
@@ -51,6 +52,60 @@ def T(vid, prop, file, old, new, **kw):
 
 def B(vid, prop, file, old, new, expect, **kw):
     return Variant(vid, prop, "break", file, old, new, expect, **kw)
+
+
+def _func_span(src, name):
+    """(start, end) of the top-level or class-level function `name` (def/cdef/
+    cpdef, .py/.pyx): up to the next line with indentation <= the def's."""
+    m = re.search(r"^([ \t]*)(?:def|cdef|cpdef)[^\n(]*?\b%s\(" % re.escape(name), src, re.M)
+    if not m:
+        return None
+    ind = len(m.group(1))
+    pos = src.find("\n", m.end())
+    # skip the (possibly multi-line) signature: find the line ending with ':'
+    end = len(src)
+    lines = src[pos + 1:].split("\n")
+    off = pos + 1
+    seen_body = False
+    for ln in lines:
+        st = ln.strip()
+        if st and not st.startswith("#"):
+            cur = len(ln) - len(ln.lstrip())
+            if cur > ind:
+                seen_body = True
+            elif seen_body and cur <= ind and not st.startswith(")"):
+                end = off
+                break
+        off += len(ln) + 1
+    return m.start(), end
+
+
+def rename_in(func, mapping):
+    """Twin transform: rename local identifiers inside one function."""
+    def tr(src):
+        sp = _func_span(src, func)
+        if sp is None:
+            return None
+        a, b = sp
+        body = src[a:b]
+        new = body
+        for o, n in mapping.items():
+            if not re.search(r"(?<![\w.])%s\b" % re.escape(o), new):
+                return None
+            if re.search(r"(?<![\w.])%s\b" % re.escape(n), new):
+                return None        # would capture an existing name
+        # simultaneous renaming through placeholders
+        for i, o in enumerate(mapping):
+            new = re.sub(r"(?<![\w.\"'])%s\b(?!\s*=[^=].*\bdtype)" % re.escape(o),
+                         f"\0{i}\0", new)
+        for i, o in enumerate(mapping):
+            new = new.replace(f"\0{i}\0", mapping[o])
+        return src[:a] + new + src[b:]
+    return tr
+
+
+def R(vid, prop, file, func, mapping):
+    return Variant(vid, prop, "twin", file, transform=rename_in(func, mapping))
 
 
 NET = "src/pyunicorn/core/network.py"
@@ -106,9 +161,12 @@ CATALOGUE = [
       "if A[node3, node1] == 1 and A[node2, node3] == 1:"),
     T("c03-swap-indices", "C03", CPYX, "if A[node2, node3] == 1 and A[node3, node1] == 1:",
       "if A[node3, node2] == 1 and A[node1, node3] == 1:"),
-    B("c11-sparse-drop-test", "C11", INW,
-      "if A[node1, node2] == 1 and A[node2, node3] == 1 and \\\n                                A[node3, node1] == 1:",
-      "if A[node1, node2] == 1 and A[node2, node3] == 1:", "cross_local_clustering_sparse"),
+    B("c11-drop-test", "C11", INW,
+      "                        if (A[node1, node2] == 1 and A[node2, node3] == 1\n                                and A[node3, node1] == 1):",
+      "                        if (A[node1, node2] == 1 and A[node2, node3] == 1):", "C11/"),
+    T("c11-reorder-tests", "C11", INW,
+      "                        if (A[node1, node2] == 1 and A[node2, node3] == 1\n                                and A[node3, node1] == 1):",
+      "                        if (A[node3, node1] == 1 and A[node1, node2] == 1\n                                and A[node2, node3] == 1):"),
     B("c14-nonstrict", "C14", TPYX,
       "            while (x[k] - x[i]) / (t[k] - t[i]) < test and k < j:",
       "            while (x[k] - x[i]) / (t[k] - t[i]) <= test and k < j:", "strictness"),
@@ -130,15 +188,30 @@ CATALOGUE = [
       "        lc = self.local_clustering()\n        lc[0] = 0\n        return lc.mean()",
       "Network.global_clustering/cached:Network.local_clustering"),
     T("c06-copy-instead", "C06", NET,
-      "        nsi_distances = self.path_lengths() + np.identity(self.N)\n        return self.total_node_weight /",
-      "        nsi_distances = self.path_lengths().copy()\n        nsi_distances += np.identity(self.N)\n        return self.total_node_weight /"),
+      "        nsi_distances = self.path_lengths() + np.identity(self.N)\n        weight_products",
+      "        nsi_distances = self.path_lengths().copy()\n        nsi_distances += np.identity(self.N)\n        weight_products"),
+    B("c06-no-copy", "C06", NET,
+      "        nsi_distances = self.path_lengths() + np.identity(self.N)\n        weight_products",
+      "        nsi_distances = self.path_lengths()\n        nsi_distances += np.identity(self.N)\n        weight_products",
+      "cached:Network.path_lengths"),
     # ---------------- C07 / C08
-    B("c07-flip-relation", "C07", RP, "        recurrence[distance < threshold] = 1\n\n        if self.missing_values:\n            #  Write missing value lines and rows to recurrence matrix\n            #  NaN flag is not supported by int8 data format -> use 0 here\n            recurrence[self.missing_value_indices, :] = 0\n            recurrence[:, self.missing_value_indices] = 0\n\n        self.R = recurrence\n\n    def set_fixed_threshold_std",
-      "        recurrence[distance <= threshold] = 1\n\n        if self.missing_values:\n            #  Write missing value lines and rows to recurrence matrix\n            #  NaN flag is not supported by int8 data format -> use 0 here\n            recurrence[self.missing_value_indices, :] = 0\n            recurrence[:, self.missing_value_indices] = 0\n\n        self.R = recurrence\n\n    def set_fixed_threshold_std",
+    B("c07-flip-relation", "C07", RP,
+      "        recurrence[distance < threshold] = 1\n        if self.missing_values:",
+      "        recurrence[distance <= threshold] = 1\n        if self.missing_values:",
       "relation"),
+    B("c07-drop-mask", "C07", RP,
+      "            recurrence[self.missing_value_indices, :] = 0\n            recurrence[:, self.missing_value_indices] = 0\n",
+      "            recurrence[self.missing_value_indices, :] = 0\n",
+      "T3/"),
     B("c07-no-rebuild", "C07", "src/pyunicorn/timeseries/recurrence_network.py",
-      "        RecurrencePlot.set_fixed_recurrence_rate(self, recurrence_rate)\n\n        #  Create a Network object interpreting the recurrence matrix as the\n        #  graph adjacency matrix. Self-loops are removed.\n        A = self.R.copy()\n        A.flat[::self.N+1] = 0\n        Network.__init__(self, A, directed=False,\n                         silence_level=self.silence_level)",
-      "        RecurrencePlot.set_fixed_recurrence_rate(self, recurrence_rate)", "no-rebuild"),
+      "        A = self.R.copy()\n        A.flat[::self.N+1] = 0\n\n        #  Create a Network object interpreting the recurrence matrix as the\n        #  graph adjacency matrix. Recurrence networks are undirected by\n        #  definition.\n        Network.__init__(self, A, directed=False,\n                         silence_level=self.silence_level)\n\n    def set_fixed_local_recurrence_rate",
+      "\n    def set_fixed_local_recurrence_rate", "T2/"),
+    B("c07-keep-diagonal", "C07", "src/pyunicorn/timeseries/recurrence_network.py",
+      "        A = self.R.copy()\n        A.flat[::self.N+1] = 0\n\n        #  Create a Network object interpreting the recurrence matrix as the\n        #  graph adjacency matrix. Recurrence networks are undirected by\n        #  definition.\n        Network.__init__(self, A, directed=False,\n                         silence_level=self.silence_level)\n\n    def set_fixed_local_recurrence_rate",
+      "        A = self.R.copy()\n        Network.__init__(self, A, directed=False,\n                         silence_level=self.silence_level)\n\n    def set_fixed_local_recurrence_rate", "T2/"),
+    T("c07-fill-diagonal", "C07", "src/pyunicorn/timeseries/recurrence_network.py",
+      "        A = self.R.copy()\n        A.flat[::self.N+1] = 0\n\n        #  Create a Network object interpreting the recurrence matrix as the\n        #  graph adjacency matrix. Recurrence networks are undirected by\n        #  definition.\n        Network.__init__(self, A, directed=False,",
+      "        A = np.array(self.R)\n        np.fill_diagonal(A, 0)\n        Network.__init__(self, A, directed=False,"),
     B("c08-wrong-linetype", "C08", TPYX,
       "        n_time, hist, null_R, E, eps, dim, metric_supremum, True, M_null, False,\n        i2J_diagline, ij2I_diagline, True)",
       "        n_time, hist, null_R, E, eps, dim, metric_supremum, True, M_null, False,\n        i2J_vertline, ij2I_diagline, True)",
@@ -155,14 +228,18 @@ CATALOGUE = [
       "writes-threshold"),
     T("c09-fill-diagonal", "C09", CN, "        A.flat[::N+1] = 0\n", "        np.fill_diagonal(A, 0)\n"),
     B("c13-open-interval", "C13", DATA,
-      "            time_indices = (full_time >= window[\"time_min\"]) & \\\n                (full_time <= window[\"time_max\"])",
-      "            time_indices = (full_time >= window[\"time_min\"]) & \\\n                (full_time < window[\"time_max\"])",
-      "Data.set_window/time"),
+      "            time_indices = (full_time >= window[\"time_min\"]) & \\\n                           (full_time <= window[\"time_max\"])",
+      "            time_indices = (full_time >= window[\"time_min\"]) & \\\n                           (full_time < window[\"time_max\"])",
+      "C13/"),
     B("c13-no-bump", "C13", "src/pyunicorn/climate/climate_data.py",
       "        Data.set_window(self, window)\n        # invalidate cache\n        self._mut_window += 1",
       "        Data.set_window(self, window)", "ClimateData.set_window/invalidate"),
-    B("c18-swap-order", "C18", RES, "        self.update_admittance()\n        self.update_R()",
-      "        self.update_R()\n        self.update_admittance()", "update_resistances/order"),
+    B("c18-swap-order", "C18", RES,
+      "        # update the admittance\n        self.update_admittance()\n\n        # and update R\n        self.update_R()",
+      "        self.update_R()\n        self.update_admittance()", "C18/"),
+    B("c18-drop-update-R", "C18", RES,
+      "        # update the admittance\n        self.update_admittance()\n\n        # and update R\n        self.update_R()",
+      "        # update the admittance\n        self.update_admittance()", "C18/"),
     # ---------------- C12
     B("c12-one-store", "C12", CPYX, "            cosangdist[i, j] = cosangdist[j, i] = expr",
       "            cosangdist[i, j] = expr", "_calculate_angular_distance/asymmetric-store"),
@@ -179,9 +256,9 @@ CATALOGUE = [
       "float-index"),
     B("c16-registry-swap", "C16", ES, "'max': EventSeries._symmetrization_max,",
       "'max': EventSeries._symmetrization_min,", "registry/max"),
-    B("c16-new-key", "C16", ES, "'min': EventSeries._symmetrization_min}",
-      "'min': EventSeries._symmetrization_min,\n            'sum': EventSeries._symmetrization_symmetric}",
-      "registry"),
+    B("c16-new-key", "C16", ES, "'min': EventSeries._symmetrization_min\n        }",
+      "'min': EventSeries._symmetrization_min,\n            'sum': EventSeries._symmetrization_symmetric\n        }",
+      "C16/"),
     B("c15-nR-nocast", "C15", RP, "        nR = to_cy(R.sum(axis=0), NODE)", "        nR = R.sum(axis=0)",
       "RecurrencePlot.twins/_twins_r/nR"),
     # ---------------- C17
@@ -196,20 +273,23 @@ CATALOGUE = [
       "                A[k,l] = A[l,k] = 0\n                A[s,t] = A[t,s] = 0\n"),
     # ---------------- C19
     B("c19-pass-whole-A", "C19", NET,
-      "                            (to_cy(this_A, ADJ), to_cy(V, DFIELD), N, start_i, end_i),",
-      "                            (to_cy(A, ADJ), to_cy(V, DFIELD), N, start_i, end_i),", "arg0"),
-    B("c19-reversed-collect", "C19", NET,
-      "                    for index in range(parts):\n                        if self.silence_level <= 0:\n                            print(\"retrieving results from \", index)",
-      "                    for index in reversed(range(parts)):\n                        if self.silence_level <= 0:\n                            print(\"retrieving results from \", index)",
-      "Network.newman_betweenness/range"),
+      "                            (to_cy(this_A, ADJ), to_cy(V, DFIELD),\n                             N, start_i, end_i),",
+      "                            (to_cy(A, ADJ), to_cy(V, DFIELD),\n                             N, start_i, end_i),", "C19/"),
+    B("c19-collect-shifted", "C19", NET,
+      "                        component_betweenness[start_i:end_i] = this_betweenness",
+      "                        component_betweenness[start_i+1:end_i+1] = this_betweenness", "C19/"),
     B("c19-end-without-min", "C19", NET,
-      "                    for idx in range(parts):\n                        start_i = idx * step\n                        end_i = min((idx + 1) * step, N)",
-      "                    for idx in range(parts):\n                        start_i = idx * step\n                        end_i = (idx + 1) * step",
-      "Network.nsi_newman_betweenness/end"),
+      "                    for idx in range(parts):\n                        start_i = idx * step\n                        end_i = min((idx+1)*step, N)",
+      "                    for idx in range(parts):\n                        start_i = idx * step\n                        end_i = (idx+1)*step",
+      "C19/"),
+    B("c19-overlap", "C19", NET,
+      "                    for idx in range(parts):\n                        start_i = idx * step\n                        end_i = min((idx+1)*step, N)",
+      "                    for idx in range(parts):\n                        start_i = idx * step\n                        end_i = min((idx+1)*step + 1, N)",
+      "C19/"),
     B("c19-drop-fill", "C19", CPYX, "        multiplicity_to_j.fill(0)\n", "", "_nsi_betweenness/array/multiplicity_to_j"),
-    T("c19-rename-loopvar", "C19", NET,
-      "                    for idx in range(parts):\n                        start_i = idx * step\n                        end_i = min((idx + 1) * step, N)",
-      "                    for idx in range(parts):\n                        start_i = idx * step\n                        end_i = min(N, (idx + 1) * step)"),
+    T("c19-commuted-min", "C19", NET,
+      "                    for idx in range(parts):\n                        start_i = idx * step\n                        end_i = min((idx+1)*step, N)",
+      "                    for idx in range(parts):\n                        start_i = step * idx\n                        end_i = min(N, step * (idx + 1))"),
     # ---------------- C20
     B("c20-boundscheck-off", "C20", "setup.py", "'boundscheck': True", "'boundscheck': False", "boundscheck"),
     B("c20-wrong-cast", "C20", TPYX, "        <DFIELD_t*> cnp.PyArray_DATA(surrogates),\n        <FIELD_t*> cnp.PyArray_DATA(correlation),",
@@ -220,11 +300,82 @@ CATALOGUE = [
       "                p_surrogates = surrogates + j*N;", "_test_pearson_correlation_fast/surrogates"),
     B("c20-small-hist", "C20", TPYX, "            np.zeros((n_bins, n_bins), dtype=NODE)", "            np.zeros((n_bins, n_bins - 1), dtype=NODE)",
       "hist2d"),
-    B("c20-swap-sizes", "C20", SUR, "        return _test_pearson_correlation(to_cy(original_data, DFIELD),\n                                         to_cy(surrogates, DFIELD),\n                                         N, n_time)",
-      "        return _test_pearson_correlation(to_cy(original_data, DFIELD),\n                                         to_cy(surrogates, DFIELD),\n                                         n_time, N)", "B4"),
+    B("c20-extent-plus-one", "C20", SUR, "        return _test_pearson_correlation(to_cy(original_data, DFIELD),\n                                         to_cy(surrogates, DFIELD),\n                                         N, n_time)",
+      "        return _test_pearson_correlation(to_cy(original_data, DFIELD),\n                                         to_cy(surrogates, DFIELD),\n                                         N + 1, n_time)", "B4"),
     T("c20-index-instead-of-walk", "C20", TSC,
       "                    corr += (*p_original) * (*p_surrogates);\n                    //  Set pointer to original_data(i,k+1)\n                    p_original++;\n                    //  Set pointer to surrogates(j,k+1)\n                    p_surrogates++;",
       "                    corr += p_original[k] * p_surrogates[k];"),
+    # ---------------- behaviour-preserving renames / rewrites (twins)
+    R("c17-rename-endpoints", "C17", CPYX, "_randomly_rewire_geomodel",
+      {"s": "a1", "t": "a2", "k": "b1", "l": "b2"}),
+    R("c17-rename-cross", "C17", CPYX, "_randomlyRewireCrossLinks",
+      {"e1": "first", "e2": "second", "a": "p", "b": "q", "c": "r", "d": "s"}),
+    R("c17-rename-cross-params", "C17", CPYX, "_randomlyRewireCrossLinks",
+      {"cross_A": "XA", "cross_links": "links"}),
+    T("c17-cross-two-stores", "C17", CPYX, "        cross_A[a, b] = cross_A[c, d] = 0\n",
+      "        cross_A[a, b] = 0\n        cross_A[c, d] = 0\n"),
+    B("c17-cross-wrong-cell", "C17", CPYX, "        cross_A[a, d] = cross_A[c, b] = 1\n",
+      "        cross_A[a, d] = cross_A[c, d] = 1\n", "_randomlyRewireCrossLinks"),
+    B("c17-cross-guard-one", "C17", CPYX, "            if not (cross_A[a, d] or cross_A[c, b]):",
+      "            if not cross_A[a, d]:", "_randomlyRewireCrossLinks/absent"),
+    R("c17-rename-edges", "C17", CPYX, "_randomly_rewire_geomodel",
+      {"edge1": "e", "edge2": "f"}),
+    R("c03-rename-nodes", "C03", CPYX, "_local_cliquishness_4thorder",
+      {"node1": "u", "node2": "v", "node3": "w"}),
+    R("c03-rename-nodes-5", "C03", CPYX, "_local_cliquishness_5thorder",
+      {"node1": "u", "node2": "v", "node3": "w", "node4": "x"}),
+    R("c11-rename-nodes", "C11", CPYX, "_cross_local_clustering",
+      {"node1": "u", "node2": "v", "node3": "w"}),
+    R("c12-rename-expr", "C12", CPYX, "_calculate_angular_distance", {"expr": "c"}),
+    R("c12-rename-ij", "C12", CPYX, "_calculate_angular_distance", {"i": "p", "j": "q"}),
+    R("c14-rename-ijk", "C14", TPYX, "_visibility_relations_no_missingvalues",
+      {"i": "a", "j": "b", "k": "c"}),
+    R("c14-rename-test", "C14", TPYX, "_visibility_relations_no_missingvalues",
+      {"test": "slope"}),
+    R("c08-rename-linedist", "C08", TPYX, "_line_dist",
+      {"k": "length", "line": "inside", "missing_flag": "mflag"}),
+    R("c08-rename-IJ", "C08", TPYX, "_line_dist", {"I": "row", "j": "col"}),
+    R("c19-rename-nsi-betw", "C19", CPYX, "_nsi_betweenness", {"j": "jj", "i": "ii"}),
+    R("c20-rename-nsi-betw", "C20", CPYX, "_nsi_betweenness", {"j": "jj", "i": "ii"}),
+    R("c20-rename-mi", "C20", TPYX, "_test_mutual_information", {"N": "n_nodes"}),
+    R("c07-rename-adaptive", "C07", TPYX, "_set_adaptive_neighborhood_size",
+      {"i": "a", "j": "b"}),
+    T("c14-while-reorder", "C14", TPYX,
+      "            while (x[k] - x[i]) / (t[k] - t[i]) < test and k < j:",
+      "            while k < j and (x[k] - x[i]) / (t[k] - t[i]) < test:"),
+    T("c12-two-stores", "C12", CPYX, "            cosangdist[i, j] = cosangdist[j, i] = expr",
+      "            cosangdist[i, j] = expr\n            cosangdist[j, i] = expr"),
+    T("c17-two-stores", "C17", CPYX, "                A[s,l] = A[l,s] = 1\n",
+      "                A[s,l] = 1\n                A[l,s] = 1\n"),
+    T("c17-reorder-guards", "C17", CPYX,
+      "        if ((s != k and s != l and t != k and t != l) and",
+      "        if ((t != l and s != l and t != k and s != k) and"),
+    T("c17-ne-as-not-eq", "C17", CPYX, "            (A[s,l] == 0 and A[t,k] == 0) and",
+      "            (not A[s,l] and not A[t,k]) and"),
+    T("c03-truthiness", "C03", CPYX, "if A[node2, node3] == 1 and A[node3, node1] == 1:",
+      "if A[node2, node3] and A[node3, node1]:"),
+    T("c01-cache-state-local", "C01", NET, "        return (self.directed, self._mut_A,)",
+      "        state = (self.directed, self._mut_A,)\n        return state"),
+    T("c01-helper-invalidate", "C01", NET, "        # invalidate cache\n        self._mut_A += 1",
+      "        self._invalidate_adjacency()",
+      also=[(NET, "    def sp_Aplus(self):",
+             "    def _invalidate_adjacency(self):\n        self._mut_A += 1\n\n    def sp_Aplus(self):")]),
+    T("c06-np-copy", "C06", "src/pyunicorn/climate/havlin.py",
+      "        anomaly = anomaly.copy()", "        anomaly = np.array(anomaly, copy=True)"),
+    T("c09-diag-indices", "C09", CN, "        A.flat[::N+1] = 0\n",
+      "        A[np.diag_indices(N)] = 0\n"),
+    T("c13-swap-conjuncts", "C13", DATA,
+      "            time_indices = (full_time >= window[\"time_min\"]) & \\\n                           (full_time <= window[\"time_max\"])",
+      "            time_indices = (full_time <= window[\"time_max\"]) & \\\n                           (window[\"time_min\"] <= full_time)"),
+    T("c18-comment-only", "C18", RES,
+      "        # update the admittance\n        self.update_admittance()\n\n        # and update R\n        self.update_R()",
+      "        self.update_admittance()\n        self.update_R()"),
+    T("c16-registry-reorder", "C16", ES,
+      "            'max': EventSeries._symmetrization_max,\n            'min': EventSeries._symmetrization_min\n",
+      "            'min': EventSeries._symmetrization_min,\n            'max': EventSeries._symmetrization_max\n"),
+    T("c20-c-rename", "C20", TSC, "p_original", "po", count=0),
+    T("c05-rename-local", "C05", NET, "        net.graph = graph\n        #  invalidate cache\n        net._mut_la += 1",
+      "        net.graph = graph\n        net._mut_la += 1"),
 ]
 
 
@@ -268,7 +419,19 @@ def run_variant(v: Variant, repo: str, tmproot: str, baseline_keys: dict):
             if r.returncode != 0:
                 return v, "skipped", "fix no longer reversible on this tree"
         else:
-            for (fn, old, new) in [(v.file, v.old, v.new)] + list(v.also):
+            if v.transform is not None:
+                p = os.path.join(w, v.file)
+                if not os.path.exists(p):
+                    return v, "skipped", f"{v.file} missing"
+                with open(p, encoding="utf-8") as f:
+                    src = f.read()
+                out = v.transform(src)
+                if out is None or out == src:
+                    return v, "skipped", "transform anchor not found"
+                with open(p, "w", encoding="utf-8") as f:
+                    f.write(out)
+            for (fn, old, new) in ([] if v.transform is not None else
+                                   [(v.file, v.old, v.new)] + list(v.also)):
                 p = os.path.join(w, fn)
                 if not os.path.exists(p):
                     return v, "skipped", f"{fn} missing"
@@ -276,7 +439,7 @@ def run_variant(v: Variant, repo: str, tmproot: str, baseline_keys: dict):
                     s = f.read()
                 if old not in s:
                     return v, "skipped", f"anchor not found in {fn}"
-                s = s.replace(old, new, 1)
+                s = s.replace(old, new, v.count) if v.count else s.replace(old, new)
                 with open(p, "w", encoding="utf-8") as f:
                     f.write(s)
         pr = subprocess.run([os.path.join(VERIF, "vcheck"), v.prop, "--no-write",
